@@ -589,7 +589,12 @@ def replay(path, out=print, events=False):
     hs = e.get("hashseed") or 0
     pool = Pool(jobs=1, hashseeds=[hs])
     try:
-        resp = pool.run([{"prop": prop_id, "scenario": e["scenario"], "hashseed": hs, "tier": e.get("tier", "quick"), "events": events}])[0]
+        if e["scenario"].get("hang"):
+            # the run was killed by its CPU limit before it could report a scenario: replay from the seed
+            req = {"prop": prop_id, "seed": e["scenario"]["seed"], "hashseed": hs, "tier": e.get("tier", "quick")}
+        else:
+            req = {"prop": prop_id, "scenario": e["scenario"], "hashseed": hs, "tier": e.get("tier", "quick"), "events": events}
+        resp = pool.run([req])[0]
     finally:
         pool.close()
     if resp.get("status") == "hang" and e["fingerprint"].get("rule") == "hang":
